@@ -1,6 +1,6 @@
 (* C02 — the raw view reports exactly the DIE tree stored in .debug_info. *)
 From Coq Require Import NArith List Bool.
-From Dwgrep Require Import Forest ForestProofs.
+From Dwgrep Require Import Forest ForestProofs Iter IterProofs.
 Import ListNotations.
 Local Open Scope N_scope.
 
@@ -38,3 +38,22 @@ Example C02_example :
   map r_off (raw_rows f) = [11; 15; 17; 53] /\ map r_parent (raw_rows f) = [None; Some 11; Some 11; None] /\
   map u_off (raw_units f) = [0; 41].
 Proof. vm_compute. auto. Qed.
+
+(* the walk that yields them (model dw/Iter.v of all_dies_iterator::operator++: a child if there is one, else the
+   sibling, else a level up and again, unit after unit) visits exactly the stored DIEs in section pre-order, for
+   every forest; and at every step the stack of parents is right: the DIE on top stores the DIE at hand *)
+Theorem C02_walk_visits_the_stored_dies : forall f, IterM.walk_all f = raw_entries f.
+Proof. exact walk_all_is_raw_entries. Qed.
+Theorem C02_walk_keeps_the_stack_of_parents : forall p q,
+  (let '(d, rs, ctx) := p in zip_ok d rs ctx) -> IterM.next p = Some q -> let '(d', rs', ctx') := q in zip_ok d' rs' ctx'.
+Proof. exact next_keeps_stack. Qed.
+Theorem C02_top_of_stack_is_the_parent : forall d rs q qrs ctx, zip_ok d rs ((q, qrs) :: ctx) -> In d (d_kids q).
+Proof. exact top_of_stack_is_parent. Qed.
+Print Assumptions C02_walk_visits_the_stored_dies.
+Print Assumptions C02_walk_keeps_the_stack_of_parents.
+Print Assumptions C02_top_of_stack_is_the_parent.
+Example C02_walk_example :
+  let f := [mkunit 0 4 0 (Some (Die 11 17 true 1 [] [Die 15 11 true 2 [] [Die 16 52 false 3 [] []]; Die 17 52 false 3 [] []]));
+            mkunit 30 4 0 None; mkunit 41 5 0 (Some (Die 53 17 true 1 [] []))] in
+  map d_off (IterM.walk_all f) = [11; 15; 16; 17; 53].
+Proof. vm_compute. reflexivity. Qed.
